@@ -561,6 +561,37 @@ func (db *DB) RegisterCommitHook(hook CommitHookCallback) error {
 	return nil
 }
 
+// RollbackHookCallback is a callback function that is called whenever a transaction
+// is rolled back, explicitly or because a statement failed outside a transaction.
+type RollbackHookCallback func()
+
+// RegisterRollbackHook registers a callback that is called whenever a transaction
+// is rolled back. If a callback is already registered, it is replaced.
+// If hook is nil, the callback is removed.
+func (db *DB) RegisterRollbackHook(hook RollbackHookCallback) error {
+	var cb func()
+	if hook != nil {
+		cb = func() {
+			hook()
+		}
+	}
+	f := func(driverConn any) error {
+		conn := driverConn.(*sqlite3.SQLiteConn)
+		conn.RegisterRollbackHook(cb)
+		return nil
+	}
+
+	conn, err := db.rwDB.Conn(context.Background())
+	if err != nil {
+		return err
+	}
+	defer conn.Close()
+	if err := conn.Raw(f); err != nil {
+		return err
+	}
+	return nil
+}
+
 // LastModified returns the last modified time of the database file, or the WAL file,
 // whichever is most recent.
 func (db *DB) LastModified() (time.Time, error) {
